@@ -44,6 +44,9 @@ BufferCut(via, vals, n, nd, keep) == [kind |-> via, via |-> via, vals |-> vals, 
 FactorMax                   == [kind |-> "factormax", via |-> "desc"]           \* fac(4294967295): count wraps to 0
 FillSrc(fk, len, ld, a, b, c) == [kind |-> "fill", via |-> "fill", fk |-> fk, len |-> len, ld |-> ld, a |-> a, b |-> b, c |-> c]
                                \* mpt_values_linear (fk "linear": a..b) / mpt_values_bound (fk "bound": a, b.., c)
+Unknown(via, k)             == [kind |-> "unknown", via |-> via, sep |-> k]  \* description of separators only: SepTexts[k]
+WithDeco(S, D)              == {[x \in DOMAIN s \cup {"deco"} |-> IF x = "deco" THEN d ELSE s[x]] : s \in S, d \in D}
+                               \* deco = <<leading, between numbers, trailing, around ( : )>>: indices into WS
 WithExplore(S, e)           == {[x \in DOMAIN s \cup {"explore"} |-> IF x = "explore" THEN e ELSE s[x]] : s \in S}
 
 (* Tier 1: the elements a source denotes *)
@@ -51,6 +54,28 @@ RECURSIVE PolyVal(_, _, _, _)
 PolyVal(x, co, sh, j) ==     \* sum_j co[j] * (x + sh[j])^(n - j)
   IF j > Len(co) THEN <<0, 1>>
   ELSE RAdd(RMul(co[j], RPow(RAdd(x, IF j <= Len(sh) THEN sh[j] ELSE <<0, 1>>), Len(co) - j)), PolyVal(x, co, sh, j + 1))
+
+(* decoration of description texts: white space the grammars skip.  ~ ^ $ stand for tab, newline, carriage  *)
+(* return (the driver substitutes them when the create call carries esc=1).                                  *)
+WS    == <<"", " ", "  ", "~", "^", " ~^ ", "$^", "^^">>
+WSLen == <<0, 1, 2, 1, 1, 4, 2, 2>>
+HasDeco(s) == "deco" \in DOMAIN s
+Ld(s) == IF HasDeco(s) THEN WS[s.deco[1]] ELSE ""
+Sp(s) == IF HasDeco(s) THEN WS[s.deco[2]] ELSE " "
+Tr(s) == IF HasDeco(s) THEN WS[s.deco[3]] ELSE ""
+Pd(s) == IF HasDeco(s) THEN WS[s.deco[4]] ELSE ""
+Tk(s, c) == Pd(s) \o c \o Pd(s)                         \* a structural character ( : ) with white space around it
+KwSep(s) == IF HasDeco(s) /\ s.deco[4] # 1 THEN Tk(s, ":") ELSE Sp(s)     \* after a profile keyword: white space and/or a colon
+SepTexts == <<":", " : ", ",", " , ; ", "()", "( : )", "::", "/", "~:^", ";">>
+
+(* A text iterator skips one separator character behind an element it has read; white space in front of an   *)
+(* element belongs to the element.  Text that remains behind the last number is served as one more position  *)
+(* without a value (Hole): whether it is an element is not decided by the statement -- both are acceptable.  *)
+Hole == <<0, 0>>
+HoleText(s) == IF ~HasDeco(s) THEN -1 ELSE IF s.vals = <<>> THEN WSLen[s.deco[1]] + WSLen[s.deco[3]] - 1 ELSE WSLen[s.deco[3]] - 1
+               \* characters behind the separator character that follows the last number (no number: all characters, less one); -1: none
+HasHole(s) == s.kind = "text" /\ HoleText(s) >= 0
+HoleLen(s) == IF s.vals = <<>> THEN HoleText(s) + 1 ELSE HoleText(s)
 
 HasTail(s) == "tail" \in DOMAIN s
 RECURSIVE Pow10(_)
@@ -101,45 +126,57 @@ TolExp(s, x) ==
                                            i \in 1..Len(s.grid), j \in 1..Len(s.co)}) + 3
      [] OTHER -> MagExp(x)) - 48
 
+(* Tier 1: sequences a source may replay; Tier 2: the one the code replays *)
+Cands(s) == IF HasHole(s) THEN {Elems(s), Append(Elems(s), Hole)} ELSE {Elems(s)}
+DSeq(s)  == IF HasHole(s) THEN Append(Elems(s), Hole) ELSE Elems(s)
+HasVal(I) == I.pos < Len(I.seq) /\ I.seq[I.pos + 1] # Hole
+
 ---------------------------------------------------------------------------
 (* Tier 2: the description text / constructor arguments *)
 RECURSIVE Join(_, _)
 Join(xs, sep) == IF xs = <<>> THEN "" ELSE IF Len(xs) = 1 THEN RText(xs[1]) ELSE RText(xs[1]) \o sep \o Join(Rest(xs), sep)
 N2(n) == ToString(n)
 
-Desc(s) ==
-  CASE s.via = "iterarg" ->       \* the parameters as text iterator handed to _mpt_iterator_linear/_range/_factor
-         (CASE s.kind = "linear" -> N2(s.n) \o " " \o RText(s.a) \o " " \o RText(s.b)
-            [] s.kind = "range"  -> RText(s.a) \o " " \o RText(s.b) \o " " \o RText(s.step)
+Body(s) ==
+  CASE s.kind = "unknown" -> IF s.sep = 0 THEN "" ELSE SepTexts[s.sep]
+    [] s.via = "iterarg" ->       \* the parameters as text iterator handed to _mpt_iterator_linear/_range/_factor
+         (CASE s.kind = "linear" -> N2(s.n) \o Sp(s) \o RText(s.a) \o Sp(s) \o RText(s.b)
+            [] s.kind = "range"  -> RText(s.a) \o Sp(s) \o RText(s.b) \o Sp(s) \o RText(s.step)
             [] s.kind = "factor" -> IF s.form = 1 THEN N2(s.n)
-                                    ELSE N2(s.n) \o " " \o RText(s.base) \o " " \o RText(s.fact) \o " " \o RText(s.init))
+                                    ELSE N2(s.n) \o Sp(s) \o RText(s.base) \o Sp(s) \o RText(s.fact) \o Sp(s) \o RText(s.init))
     [] s.kind = "linear" /\ s.via = "desc" ->
-         (CASE s.style = 0 -> "lin(" \o N2(s.n) \o ":" \o RText(s.a) \o " " \o RText(s.b) \o ")"
+         (CASE s.style = 0 -> "lin" \o Tk(s, "(") \o N2(s.n) \o Tk(s, ":") \o RText(s.a) \o Sp(s) \o RText(s.b) \o Tk(s, ")")
             [] s.style = 1 -> "  Linear ( " \o N2(s.n) \o " : " \o RText(s.a) \o "  " \o RText(s.b) \o " ) "
-            [] s.style = 2 -> "LIN(" \o N2(s.n) \o ")")                     \* default bounds 0 1
+            [] s.style = 2 -> "LIN" \o Tk(s, "(") \o N2(s.n) \o Tk(s, ")"))                     \* default bounds 0 1
     [] s.kind = "linear" /\ s.via = "profile" ->
-         (IF s.style = 0 THEN "lin " ELSE " linear: ") \o RText(s.a) \o " " \o RText(s.b)
+         (IF s.style = 0 THEN "lin" \o KwSep(s) ELSE IF HasDeco(s) THEN "Linear" \o KwSep(s) ELSE " linear: ") \o RText(s.a) \o Sp(s) \o RText(s.b)
     [] s.kind = "range" ->
-         (CASE s.style = 0 -> "range(" \o RText(s.a) \o " " \o RText(s.b) \o ":" \o RText(s.step) \o ")"
+         (CASE s.style = 0 -> "range" \o Tk(s, "(") \o RText(s.a) \o Sp(s) \o RText(s.b) \o Tk(s, ":") \o RText(s.step) \o Tk(s, ")")
             [] s.style = 1 -> " Range( " \o RText(s.a) \o " " \o RText(s.b) \o " : " \o RText(s.step) \o " )"
-            [] s.style = 2 -> "range(" \o RText(s.a) \o " " \o RText(s.b) \o ")"    \* default step (b - a) / 10
-            [] s.style = 3 -> "  ")                                                 \* no description: range(0 1:0.1)
+            [] s.style = 2 -> "range" \o Tk(s, "(") \o RText(s.a) \o Sp(s) \o RText(s.b) \o Tk(s, ")")    \* default step (b - a) / 10
+            [] s.style = 3 -> "  "                                                  \* no description: range(0 1:0.1)
+            [] s.style = 4 -> "")                                                   \* empty (decorated: blank only)
     [] s.kind = "factor" ->
-         (CASE s.form = 1 -> "fac(" \o N2(s.n) \o ")"
-            [] s.form = 2 -> "fact(" \o N2(s.n) \o ":" \o RText(s.base) \o ")"
-            [] s.form = 3 -> "factor(" \o N2(s.n) \o ":" \o RText(s.base) \o ":" \o RText(s.fact) \o ")"
-            [] s.form = 4 -> "fac(" \o N2(s.n) \o ":" \o RText(s.base) \o "::" \o RText(s.init) \o ")"
-            [] s.form = 5 -> " Fac ( " \o N2(s.n) \o " : " \o RText(s.base) \o " : " \o RText(s.fact) \o " : " \o RText(s.init) \o " )")
+         (CASE s.form = 1 -> "fac" \o Tk(s, "(") \o N2(s.n) \o Tk(s, ")")
+            [] s.form = 2 -> "fact" \o Tk(s, "(") \o N2(s.n) \o Tk(s, ":") \o RText(s.base) \o Tk(s, ")")
+            [] s.form = 3 -> "factor" \o Tk(s, "(") \o N2(s.n) \o Tk(s, ":") \o RText(s.base) \o Tk(s, ":") \o RText(s.fact) \o Tk(s, ")")
+            [] s.form = 4 -> "fac" \o Tk(s, "(") \o N2(s.n) \o Tk(s, ":") \o RText(s.base) \o Tk(s, "::") \o RText(s.init) \o Tk(s, ")")
+            [] s.form = 5 -> IF HasDeco(s)
+                             THEN "FAC" \o Tk(s, "(") \o N2(s.n) \o Tk(s, ":") \o RText(s.base) \o Tk(s, ":") \o RText(s.fact) \o Tk(s, ":") \o RText(s.init) \o Tk(s, ")")
+                             ELSE " Fac ( " \o N2(s.n) \o " : " \o RText(s.base) \o " : " \o RText(s.fact) \o " : " \o RText(s.init) \o " )")
     [] s.kind = "factormax" -> "fac(4294967295)"
-    [] s.kind = "boundary" /\ s.via = "profile" -> "bound " \o RText(s.l) \o " " \o RText(s.m) \o " " \o RText(s.r)
-    [] s.kind = "poly" -> (IF s.via = "profile" THEN "poly " ELSE "") \o Join(s.co, " ") \o (IF s.sh = <<>> THEN "" ELSE " : " \o Join(s.sh, " "))
-    [] s.kind \in {"values", "text"} -> Join(s.vals, " ")
+    [] s.kind = "boundary" /\ s.via = "profile" -> (IF HasDeco(s) /\ s.deco[1] > 2 THEN "boundary" ELSE "bound") \o KwSep(s) \o RText(s.l) \o Sp(s) \o RText(s.m) \o Sp(s) \o RText(s.r)
+    [] s.kind = "poly" -> (IF s.via = "profile" THEN "poly" \o KwSep(s) ELSE "") \o Join(s.co, Sp(s))
+                          \o (IF s.sh = <<>> THEN "" ELSE (IF HasDeco(s) THEN Tk(s, ":") ELSE " : ") \o Join(s.sh, Sp(s)))
+    [] s.kind \in {"values", "text"} -> Join(s.vals, Sp(s))
     [] s.kind \in {"buffer", "args"} ->
          IF HasTail(s) THEN (IF s.vals = <<>> THEN "" ELSE Join(s.vals, "|") \o "|") \o ToString(s.tail[1]) ELSE Join(s.vals, "|")
     [] OTHER -> ""
+Desc(s) == Ld(s) \o Body(s) \o Tr(s)
 
-CreateArg(s) ==
-  CASE s.via = "iterarg" -> [via |-> "iterarg", kind |-> s.kind, desc |-> Desc(s)]
+CreateArg0(s) ==
+  CASE s.kind = "unknown" -> [via |-> s.via, desc |-> Desc(s)]
+    [] s.via = "iterarg" -> [via |-> "iterarg", kind |-> s.kind, desc |-> Desc(s)]
     [] s.kind = "linear" /\ s.via = "api"     -> [via |-> "linear", len |-> s.n + 1, a |-> s.a, b |-> s.b]
     [] s.kind = "linear" /\ s.via = "profile" -> [via |-> "profile", len |-> s.n + 1, desc |-> Desc(s)]
     [] s.kind = "boundary" /\ s.via = "api"     -> [via |-> "boundary", len |-> s.len, a |-> s.l, b |-> s.m, c |-> s.r]
@@ -150,6 +187,8 @@ CreateArg(s) ==
     [] s.kind \in {"buffer", "args"} ->       \* cut: bytes at the end of the data that lie behind the used size
          [via |-> s.kind, desc |-> Desc(s), cut |-> IF HasTail(s) THEN 1 + s.tail[2] - s.tail[3] ELSE 0]
     [] OTHER -> [via |-> "desc", desc |-> Desc(s)]
+CreateArg(s) == LET c == CreateArg0(s) IN
+  IF HasDeco(s) THEN [x \in DOMAIN c \cup {"esc"} |-> IF x = "esc" THEN 1 ELSE c[x]] ELSE c
 
 (* Tier 2: the double of an exactly computed small dyadic element *)
 DOf(x) == <<IF x[1] < 0 THEN 1 ELSE 0, Abs(x[1]) % B, Abs(x[1]) \div B, 0, 0,
@@ -164,7 +203,7 @@ Cloneable(s) == s.kind # "poly"
 ---------------------------------------------------------------------------
 (* Tier 1: acceptable answers *)
 T1Value(s, I, ret, d) ==
-  IF I.pos < Len(I.seq)
+  IF HasVal(I)
   THEN ret = "value" /\ Near(d, I.seq[I.pos + 1], TolExp(s, I.seq[I.pos + 1]))
   ELSE ret = "end"                                    \* reading past the end is reported
 T1Advance(I, ret) ==
@@ -172,7 +211,7 @@ T1Advance(I, ret) ==
   ELSE IF I.pos + 1 = Len(I.seq) THEN ret = "last"    \* no further element
   ELSE ret \in {"last", "end"}                        \* advancing past the end is reported
 T1Consume(s, I, ret, d) ==                            \* mpt_iterator_consume: value and advance in one
-  IF I.pos < Len(I.seq) THEN ret = "value" /\ Near(d, I.seq[I.pos + 1], TolExp(s, I.seq[I.pos + 1]))
+  IF HasVal(I) THEN ret = "value" /\ Near(d, I.seq[I.pos + 1], TolExp(s, I.seq[I.pos + 1]))
   ELSE ret = "end"
 T1Reset(ret)  == ret = "ok"
 T1Clone(ret)  == ret \in {"ok", "none"}
@@ -202,7 +241,7 @@ Advance(i, ret) ==
 Consume(i, ret, d) ==
   /\ i \in 1..Len(inst)
   /\ LET I == inst[i] IN
-     inst' = IF I.pos < Len(I.seq) THEN [inst EXCEPT ![i] = [I EXCEPT !.pos = I.pos + 1, !.over = 0, !.seen = FALSE]] ELSE inst
+     inst' = IF HasVal(I) THEN [inst EXCEPT ![i] = [I EXCEPT !.pos = I.pos + 1, !.over = 0, !.seen = FALSE]] ELSE inst
   /\ Answer("consume", i, [ret |-> ret, d |-> d])
   /\ UNCHANGED src
 
@@ -228,14 +267,16 @@ CloneT2(s, I) == IF TextLike(s) THEN Fresh(Remaining(I)) ELSE [Fresh(I.seq) EXCE
 (* Tier 2: the answers of the code *)
 ValueT2(i) ==
   LET I == inst[i] IN
-  IF I.pos < Len(I.seq) THEN Value(i, "value", DExp(src, I.seq[I.pos + 1])) ELSE Value(i, "end", <<>>)
+  IF HasVal(I) THEN Value(i, "value", DExp(src, I.seq[I.pos + 1])) ELSE Value(i, "end", <<>>)
+(* a text iterator answers "last" once more before "end", unless it stopped on remaining text of length 0 *)
+ExtraLast(s, I) == I.seq = <<>> \/ I.seq[Len(I.seq)] # Hole \/ HoleLen(s) > 0
 AdvanceT2(i) ==
   LET I == inst[i] n == Len(I.seq) IN
   Advance(i, IF I.pos + 1 < n THEN "more" ELSE IF I.pos + 1 = n THEN "last"
-             ELSE IF TextLike(src) /\ I.over = 0 THEN "last" ELSE "end")
+             ELSE IF TextLike(src) /\ I.over = 0 /\ ExtraLast(src, I) THEN "last" ELSE "end")
 ConsumeT2(i) ==
   LET I == inst[i] IN
-  IF I.pos < Len(I.seq) THEN Consume(i, "value", DExp(src, I.seq[I.pos + 1])) ELSE Consume(i, "end", <<>>)
+  IF HasVal(I) THEN Consume(i, "value", DExp(src, I.seq[I.pos + 1])) ELSE Consume(i, "end", <<>>)
 Consumable(s) == s.kind \notin {"buffer", "args"}      \* string elements are not converted to numbers by consume
 ResetT2(i) == Reset(i, "ok", inst[i].seq)
 CloneT2Act(i) ==
@@ -249,8 +290,14 @@ FillAct ==
              exp |-> [vals |-> IF ExactSrc(src) THEN [i \in 1..src.len |-> DExp(src, Elems(src)[i])] ELSE <<>>, clean |-> 1]]
   /\ UNCHANGED <<src, inst>>
 
+AnyAct(c) ==      \* a description the statement does not decide: any answer (no fault; replay is judged on the recorded run)
+  /\ obs' = [a |-> (CASE c[1] = "V" -> "value" [] c[1] = "A" -> "advance" [] c[1] = "R" -> "reset" [] c[1] = "C" -> "clone" [] OTHER -> "consume"),
+             arg |-> [i |-> c[2]], exp |-> [ret |-> "any"]]
+  /\ UNCHANGED <<src, inst>>
+
 Do(c) ==
-  CASE c[1] = "F" -> FillAct
+  CASE src.kind = "unknown" -> AnyAct(c)
+    [] c[1] = "F" -> FillAct
     [] c[1] = "V" -> ValueT2(c[2])
     [] c[1] = "A" -> AdvanceT2(c[2])
     [] c[1] = "R" -> ResetT2(c[2])
@@ -260,7 +307,7 @@ Do(c) ==
 (* the documented loop, past the end, reset, half a walk, clone, ... *)
 Rep(xs, n) == IF n <= 0 THEN <<>> ELSE [i \in 1..(n * Len(xs)) |-> xs[((i - 1) % Len(xs)) + 1]]   \* xs repeated n times
 Script(s) ==
-  LET n == Len(Elems(s))
+  LET n == Len(DSeq(s))
       h == (n + 1) \div 2
       VA1 == <<<<"V", 1>>, <<"A", 1>>>>
       VA2 == <<<<"V", 2>>, <<"A", 2>>>>
@@ -269,13 +316,20 @@ Script(s) ==
      \o VA1
      \o (IF Consumable(s) THEN <<<<"R", 1>>>> \o Rep(<<<<"X", 1>>>>, n + 1) ELSE <<>>)
 
+(* undecided description: walk, reset, the same walk, clone of the reset source, the same walk *)
+ScriptU ==
+  LET W(i) == Rep(<<<<"V", i>>, <<"A", i>>>>, 4)
+  IN W(1) \o <<<<"R", 1>>>> \o W(1) \o <<<<"R", 1>>, <<"C", 1>>>> \o W(2)
+
 ---------------------------------------------------------------------------
 Init ==
   /\ src \in Sources
-  /\ inst = IF src.kind = "fill" THEN <<>> ELSE <<Fresh(Elems(src))>>
-  /\ todo = IF src.kind = "fill" THEN <<<<"F", 0>>>> ELSE IF src.explore THEN <<>> ELSE Script(src)
+  /\ inst = IF src.kind \in {"fill", "unknown"} THEN <<>> ELSE <<Fresh(DSeq(src))>>
+  /\ todo = IF src.kind = "fill" THEN <<<<"F", 0>>>> ELSE IF src.kind = "unknown" THEN ScriptU ELSE IF src.explore THEN <<>> ELSE Script(src)
   /\ obs = IF src.kind = "fill"
            THEN [a |-> "nop", arg |-> [x |-> 0], src |-> src, exp |-> [ret |-> "ok"]]
+           ELSE IF src.kind = "unknown"
+           THEN [a |-> "create", arg |-> CreateArg(src), src |-> src, exp |-> [ret |-> "any"]]
            ELSE [a |-> "create", arg |-> CreateArg(src), src |-> src, exp |-> [ret |-> "ok"]]
 
 Next ==
@@ -301,9 +355,10 @@ TypeOK ==
 (* every answer of the design is acceptable to the meaning (Tier 2 => Tier 1) *)
 Accepts ==
   [][ LET i == IF obs'.a = "fill" THEN 0 ELSE obs'.arg.i IN
-      CASE obs'.a = "value"   -> IF obs'.exp.d = <<>> THEN obs'.exp.ret = (IF inst[i].pos < Len(inst[i].seq) THEN "value" ELSE "end")
+      IF src.kind = "unknown" THEN TRUE ELSE
+      CASE obs'.a = "value"   -> IF obs'.exp.d = <<>> THEN obs'.exp.ret = (IF HasVal(inst[i]) THEN "value" ELSE "end")
                                  ELSE T1Value(src, inst[i], obs'.exp.ret, obs'.exp.d) /\ Exactly(obs'.exp.d, inst[i].seq[inst[i].pos + 1])
-        [] obs'.a = "consume" -> IF obs'.exp.d = <<>> THEN obs'.exp.ret = (IF inst[i].pos < Len(inst[i].seq) THEN "value" ELSE "end")
+        [] obs'.a = "consume" -> IF obs'.exp.d = <<>> THEN obs'.exp.ret = (IF HasVal(inst[i]) THEN "value" ELSE "end")
                                  ELSE T1Consume(src, inst[i], obs'.exp.ret, obs'.exp.d)
         [] obs'.a = "advance" -> T1Advance(inst[i], obs'.exp.ret)
         [] obs'.a = "reset"   -> T1Reset(obs'.exp.ret)
@@ -316,8 +371,11 @@ Accepts ==
 (* the documented loop visits exactly the denoted elements: an instance at  *)
 (* position 0 that is read and advanced until "last" has answered one value *)
 (* per element, in order (ghost: positions only move by advance/reset)      *)
+(* the sequence the design replays is one the meaning admits; its numbers are exactly the denoted elements *)
+SeqOK == src.kind \in {"fill", "unknown", "none"} \/ (DSeq(src) \in Cands(src) /\ SelectSeq(DSeq(src), LAMBDA x : x # Hole) = Elems(src))
+
 LoopVisits ==
-  [][ obs'.a = "advance" =>
+  [][ obs'.a = "advance" /\ src.kind # "unknown" =>
         LET i == obs'.arg.i IN
         /\ (obs'.exp.ret = "more" <=> inst'[i].pos < Len(inst[i].seq))
         /\ (obs'.exp.ret = "last" /\ inst[i].pos < Len(inst[i].seq) => inst'[i].pos = Len(inst[i].seq)) ]_vars
